@@ -7,8 +7,10 @@ namespace Monero.Extra
 
 theorem CAP_lt : CAP < 2^64 := by decide
 
-/-- a sub-field value that the Rust types can hold and that the decoder accepts back: `Padding(u8)`, valid 32-byte
-keys, `VarInt(u64)` depth and a 32-byte root, vectors within the allocation cap (hence shorter than 2^64) -/
+/-- a sub-field value that the decoder accepts back: `Padding(u8)`, valid 32-byte keys, `VarInt(u64)` depth and a
+32-byte root, vectors within the allocation cap (hence shorter than 2^64). (The Rust types can hold more: `PublicKey`
+has a public `point` field, so values whose bytes fail `vk` can be built by hand; they are outside `WFField`.
+Conversely every value the decoder returns satisfies `WFField`: `subFieldRd_sound`.) -/
 def WFField (vk : Bytes → Bool) : SubField → Prop
   | .padding n => n ≤ 255
   | .txPub k => k.length = 32 ∧ vk k = true
